@@ -447,6 +447,14 @@ func (h *Handler) isAllowed(ip net.IP) bool {
 func (h *Handler) AddAllowedRoute(network *net.IPNet) {
 	h.routesMu.Lock()
 	defer h.routesMu.Unlock()
+	// Adding a network that is already allowed (e.g. a dynamic route being
+	// updated) must not create a second copy: RemoveAllowedRoute removes one.
+	target := network.String()
+	for _, route := range h.cfg.AllowedRoutes {
+		if route.String() == target {
+			return
+		}
+	}
 	h.cfg.AllowedRoutes = append(h.cfg.AllowedRoutes, network)
 }
 
